@@ -2081,7 +2081,12 @@ def eval_pp_expr(expr: str):
             if isinstance(node.op, ast.Invert):
                 return ~ev(node.operand)
         if isinstance(node, ast.BinOp) and type(node.op) in _PP_BIN_OPS:
-            return _PP_BIN_OPS[type(node.op)](ev(node.left), ev(node.right))
+            left, right = ev(node.left), ev(node.right)
+            # Shifting by more than a machine word is undefined in C and would
+            # allocate arbitrarily large integers here
+            if isinstance(node.op, (ast.LShift, ast.RShift)) and not 0 <= right < 64:
+                raise ValueError("shift count out of range")
+            return _PP_BIN_OPS[type(node.op)](left, right)
         if isinstance(node, ast.Compare):
             left = ev(node.left)
             for op, comparator in zip(node.ops, node.comparators):
